@@ -35,6 +35,7 @@ Definition check_toflags (fs : list field) : verdict :=
 
 Definition check_291 (fs : list field) : verdict := check_toflags fs.
 Definition check_1691 (fs : list field) : verdict := check_toflags fs.
+Definition check_1791 (fs : list field) : verdict := check_toflags fs.
 
 (* ------------------------------------------------------------------ thrift/idl.go convertRequireness, thrift/utils.go marked-bit decisions *)
 From DG Require Import Requireness Gen_thriftreq.
